@@ -171,6 +171,7 @@ int main(int argc, char **argv) {
     R.nworkers = (int) A.geti("workers", 16);
     R.hang_limit_s = 600;
     if (A.has("deadline-s")) R.deadline_abs = vr::now_s() + A.getd("deadline-s", 0);
+    vx::stop_hook() = [&R]() { return R.expired(); };
 
     if (A.has("replay-case")) {
         auto pc = vg::parse_case(A.get("replay-case"));
@@ -197,7 +198,7 @@ int main(int argc, char **argv) {
     uint64_t wchunks = (uint64_t) A.geti("wchunks", 1);
     uint64_t total_units = ngraphs * wchunks;
     uint64_t seed = (uint64_t) A.geti("seed", 0);
-    int min_dim = (int) A.geti("min-dim", 0);
+    int min_dim = (int) A.geti("min-dim", 0), min_m = (int) A.geti("min-m", 0), max_m = (int) A.geti("max-m", 62);
     int orient_mode = (int) A.geti("orient", 0);
     auto unit_graph0 = [&](uint64_t u) { uint64_t uu = ((u / wchunks) + seed) % ngraphs; return fams.empty() ? vg::graph_from_mask(n, uu) : vg::family(fams[uu]); };
     auto unit_graph = [&](uint64_t u) { vg::EdgeList g = unit_graph0(u); vg::orient(g, orient_mode); return g; };
@@ -205,7 +206,7 @@ int main(int argc, char **argv) {
     auto work = [&](uint64_t u, uint64_t start_sub) {
         vg::EdgeList el = unit_graph(u);
         int dim = vg::cycle_space_dim(el);
-        if (dim < min_dim) return;
+        if (dim < min_dim || el.m() < min_m || el.m() > max_m) return;
         auto cyc = vg::all_simple_cycles(el);
         uint64_t nw = vg::num_weightings(alpha, el.m());
         std::vector<double> w;
@@ -218,6 +219,7 @@ int main(int argc, char **argv) {
         }
     };
     double t0 = vr::now_s();
+    A.has("out"); A.require_all_used();
     auto res = R.run(total_units, work, describe);
     double wall = vr::now_s() - t0;
     std::vector<std::string> samples;
